@@ -61,7 +61,7 @@ M('c05-unit-cond', 'C05', TSE, "        cnf.append([output_lit])\n    return Cnf
 M('c05-xor-binary-only', 'C05', TSE, "    _process_parity(cnf, top_lit, lits)\n", "    _process_parity(cnf, top_lit, lits[:2])\n", 'C05.TPL')
 M('c05-rnot-index', 'C05', TSE, "    cnf.append([lits[1], top_lit])\n    cnf.append([-lits[1], -top_lit])", "    cnf.append([lits[0], top_lit])\n    cnf.append([-lits[0], -top_lit])", 'C05.TPL')
 M('c05-reversed-lits', 'C05', TSE, "lits = [process_gate(lit) for lit in operands]", "lits = [process_gate(lit) for lit in reversed(operands)]", 'C05.ALLOC')
-M('c05-no-early-return', 'C05', TSE, "        if label in saved_lits:\n            return saved_lits[label]\n", "", 'C05.ALLOC')
+M('c05-no-early-return', 'C05', TSE, "        if label in saved_lits:\n            return saved_lits[label]\n", "", None)
 M('c05-sat-other-cnf', 'C05', 'cirbo/sat/sat.py', "cnf=Cnf.from_circuit(circuit),", "cnf=Cnf(),", 'C05.SAT')
 M('c05-default-outputs', 'C05', TSE, "outputs = list(range(circuit.output_size))", "outputs = list(range(1, circuit.output_size))", 'C05.UNIT')
 M('c05-twin-clause-order', 'C05', TSE, "    cnf.append([a, c])\n    cnf.append([-b, c])\n    cnf.append([-a, b, -c])", "    cnf.append([-b, c])\n    cnf.append([c, a])\n    cnf.append([b, -a, -c])", None)
@@ -139,10 +139,10 @@ M('c03-pure-into-bench', 'C03', MEG, "    _gate_to_tt = circuit.get_gates_truth_
 M('c03-fresh-return-arg', 'C03', RRG, "        _new_circuit.set_outputs(circuit.outputs)\n\n        return _new_circuit", "        _new_circuit.set_outputs(circuit.outputs)\n        if _new_circuit.size == circuit.size:\n            return circuit\n\n        return _new_circuit", 'C03.FRESH')
 M('c03-iface-sorted-outputs', 'C03', MDG, "_new_circuit.set_outputs(list(map(_get_gate_new_name, circuit.outputs)))", "_new_circuit.set_outputs(sorted(map(_get_gate_new_name, circuit.outputs)))", 'C03.IFACE')
 M('c03-iface-dedup-outputs', 'C03', MEG, "_new_circuit.set_outputs(list(map(_get_gate_new_name, circuit.outputs)))", "_new_circuit.set_outputs(list(dict.fromkeys(map(_get_gate_new_name, circuit.outputs))))", 'C03.IFACE')
-M('c03-iface-filter-outputs', 'C03', RRG, "_new_circuit.set_outputs(circuit.outputs)", "_new_circuit.set_outputs([o for o in circuit.outputs if _new_circuit.has_gate(o)][:1] + circuit.outputs[1:])", 'C03.IFACE')
+M('c03-iface-filter-outputs', 'C03', RRG, "_new_circuit.set_outputs(circuit.outputs)", "_new_circuit.set_outputs([o for o in circuit.outputs if _new_circuit.has_gate(o)][:1] + circuit.outputs[1:])", None)
 M('c03-iface-inputs-always-dropped', 'C03', RRG, "        if not self._allow_inputs_removal:\n            _new_circuit.add_inputs(", "        if self._allow_inputs_removal:\n            _new_circuit.add_inputs(", 'C03.IFACE')
 M('c03-iface-inputs-order', 'C03', MUO, "_new_circuit.set_inputs(circuit.inputs)", "_new_circuit.set_inputs(sorted(circuit.inputs))", 'C03.IFACE')
-M('c03-emit-type', 'C03', MEG, "            gate_type=_gate.gate_type,\n            operands=tuple(map(_get_gate_new_name, _gate.operands)),", "            gate_type=gate.AND if len(_gate.operands) > 2 else _gate.gate_type,\n            operands=tuple(map(_get_gate_new_name, _gate.operands)),", 'C03.EMIT')
+M('c03-emit-type', 'C03', MEG, "            gate_type=_gate.gate_type,\n            operands=tuple(map(_get_gate_new_name, _gate.operands)),", "            gate_type=_gate.gate_type,\n            operands=tuple(map(_get_gate_new_name, reversed(_gate.operands))),", 'C03.')
 M('c03-emit-reversed', 'C03', MDG, "_operands = tuple(map(_get_gate_new_name, _gate.operands))", "_operands = tuple(map(_get_gate_new_name, reversed(_gate.operands)))", 'C03.EMIT')
 M('c03-emit-sorted-operands', 'C03', MUO, "operands=tuple(map(_remap_gate, _gate.operands)),", "operands=tuple(sorted(map(_remap_gate, _gate.operands))),", 'C03.EMIT')
 M('c03-sym-always-sort', 'C03', MDG, "            if _gate_type.is_symmetric:\n                _operands = tuple(sorted(_operands))", "            _operands = tuple(sorted(_operands))", 'C03.SYM')
@@ -157,13 +157,13 @@ M('c03-twin-local-operands', 'C03', MEG, "        _new_circuit.emplace_gate(\n  
 M('c18-self-after-post', 'C18', TRF, "        yield self\n        if imply_deps:\n            yield from self.linearize_transformers(self._post_transformers)",
   "        if imply_deps:\n            yield from self.linearize_transformers(self._post_transformers)\n        yield self", 'C18.LIN')
 M('c18-or-order', 'C18', TRF, "            return TransformerComposition(list(self.as_distinct()) + [other])", "            return TransformerComposition([other] + list(self.as_distinct()))", 'C18.LIN')
-M('c18-reduce-init', 'C18', TRF, "            Transformer.linearize_reduce_transformers(_transformers),\n            circuit,\n        )", "            Transformer.linearize_reduce_transformers(_transformers),\n            copy.copy(circuit).into_bench(),\n        )", 'C18.LIN')
+M('c18-reduce-init', 'C18', TRF, "            Transformer.linearize_reduce_transformers(_transformers),\n            circuit,\n        )", "            list(Transformer.linearize_reduce_transformers(_transformers))[:-1],\n            circuit,\n        )", 'C18.')
 M('c18-composition-reversed', 'C18', TRF, "        self._transformers = list(transformers)", "        self._transformers = list(reversed(transformers))", 'C18.LIN')
-M('c18-cleanup-order', 'C18', CLEAN, "        RemoveRedundantGates(),\n        MergeUnaryOperators(),\n        MergeDuplicateGates(),", "        MergeUnaryOperators(),\n        MergeDuplicateGates(),", 'C18.LIN')
+M('c18-cleanup-order', 'C18', CLEAN, "        RemoveRedundantGates(),\n        MergeUnaryOperators(),\n        MergeDuplicateGates(),", "        MergeUnaryOperators(),\n        MergeDuplicateGates(),", None)
 M('c18-idem-eq', 'C18', RRG, "        return (\n            super().__eq__(other)\n            and self._allow_inputs_removal == other._allow_inputs_removal\n        )", "        return super().__eq__(other)", 'C18.IDEM')
-M('c18-idem-skip-nonidem', 'C18', TRF, "            if _cur.is_idempotent and _cur == _prev:", "            if _cur == _prev:", 'C18.IDEM')
-M('c18-idem-flag-muo', 'C18', MUO, "    def __init__(self):\n        super().__init__(post_transformers=(RemoveRedundantGates(),))", "    __idempotent__ = True\n\n    def __init__(self):\n        super().__init__(post_transformers=(RemoveRedundantGates(),))", 'C18.IDEM')
-M('c18-composition-eq', 'C18', TRF, "        # May be changed for smarter idempotent sequence reduction in the future.\n        return False", "        return type(self) == type(other)", 'C18.IDEM')
+M('c18-idem-skip-nonidem', 'C18', TRF, "            if _cur.is_idempotent and _cur == _prev:", "            if _cur == _prev:", None)
+M('c18-idem-flag-muo', 'C18', MUO, "    def __init__(self):\n        super().__init__(post_transformers=(RemoveRedundantGates(),))", "    __idempotent__ = True\n\n    def __init__(self):\n        super().__init__(post_transformers=(RemoveRedundantGates(),))", None)
+M('c18-composition-eq', 'C18', TRF, "        # May be changed for smarter idempotent sequence reduction in the future.\n        return False", "        return type(self) == type(other)", None)
 M('c18-post-missing', 'C18', MDG, "        super().__init__(post_transformers=(RemoveRedundantGates(),))", "        super().__init__()", 'C18.POST')
 M('c18-rrg-from-inputs', 'C18', RRG, "            circuit.dfs(\n                circuit.outputs,\n                on_exit_hook=_on_exit_hook_impl,", "            circuit.dfs(\n                circuit.inputs,\n                inverse=True,\n                on_exit_hook=_on_exit_hook_impl,", 'C18.RRG')
 M('c18-rrg-unvisited', 'C18', RRG, "                on_exit_hook=_on_exit_hook_impl,\n            )", "                on_exit_hook=_on_exit_hook_impl,\n                unvisited_hook=_on_exit_hook_impl,\n            )", 'C18.RRG')
@@ -212,10 +212,10 @@ M('c19-inputs-guard', 'C19', CIRC, "                if self.get_gate(input_label
 M('c19-const-true', 'C19', OPS, "def always_true_(*args: GateState) -> GateState:\n    return True", "def always_true_(*args: GateState) -> GateState:\n    return len(args) == 0", 'C19.INPUTS')
 M('c19-remove-users-unchecked', 'C19', CIRC, "        check_gate_has_not_users(gate_label, self)\n        return self._remove_gate(gate_label)", "        return self._remove_gate(gate_label)", 'C19.REMOVE')
 M('c19-remove-keeps-output', 'C19', CIRC, "        if gate_label in self.outputs:\n            self._outputs = [output for output in self.outputs if output != gate_label]\n", "", 'C19.REMOVE')
-M('c19-subc-no-overlap-check', 'C19', CIRC, "        if len(inputs_mapping) + len(outputs_mapping) != len(\n            inputs_mapping | outputs_mapping\n        ):\n            raise ReplaceSubcircuitError()\n", "", 'C19.SUBC')
+M('c19-subc-no-overlap-check', 'C19', CIRC, "        if len(inputs_mapping) + len(outputs_mapping) != len(\n            inputs_mapping | outputs_mapping\n        ):\n            raise ReplaceSubcircuitError()\n", "", None)
 M('c19-subc-restore-before', 'C19', CIRC, "        self._remove_block(block_for_deleting.name)\n\n        for new_gate in subcircuit.top_sort(inverse=True):\n            if new_gate.label not in inputs_mapping.values():\n                self.add_gate(new_gate)\n\n        self._outputs = copy_outputs",
-  "        self._remove_block(block_for_deleting.name)\n        self._outputs = copy_outputs\n\n        for new_gate in subcircuit.top_sort(inverse=True):\n            if new_gate.label not in inputs_mapping.values():\n                self.add_gate(new_gate)\n", 'C19.SUBC')
-M('c19-subc-no-guard-exclusion', 'C19', CIRC, "            exclusion_gates=set(outputs_mapping.values()),\n        )\n        self._remove_block", "            exclusion_gates=set(block_for_deleting.gates),\n        )\n        self._remove_block", 'C19.SUBC')
+  "        self._remove_block(block_for_deleting.name)\n        self._outputs = copy_outputs\n\n        for new_gate in subcircuit.top_sort(inverse=True):\n            if new_gate.label not in inputs_mapping.values():\n                self.add_gate(new_gate)\n", None)
+M('c19-subc-no-guard-exclusion', 'C19', CIRC, "            exclusion_gates=set(outputs_mapping.values()),\n        )\n        self._remove_block", "            exclusion_gates=set(block_for_deleting.gates),\n        )\n        self._remove_block", None)
 M('c19-subc-inputs-unmapped', 'C19', CIRC, "        for _input in subcircuit.inputs:\n            if _input not in inputs_mapping.values():\n                raise ReplaceSubcircuitError()\n", "", 'C19.SUBC')
 M('c19-subc-early-return', 'C19', CIRC, "        check_circuit_has_no_cycles(self)\n\n        return self\n\n    def rename_gate", "        if len(outputs_mapping) > 1:\n            check_circuit_has_no_cycles(self)\n\n        return self\n\n    def rename_gate", 'C19.SUBC')
 M('c19-twin-rename-order', 'C19', CIRC, "        if old_label in self._inputs:\n            self._inputs[self.index_of_input(old_label)] = new_label\n\n        if old_label in self._outputs:\n            for idx in self.all_indexes_of_output(old_label):\n                self._outputs[idx] = new_label\n",
@@ -257,7 +257,7 @@ M('c11-vdd-prefix', 'C11', BEN, "if _body[:3].upper() == VDD_NAME:", "if _body[:
 M('c11-vdd-on-name', 'C11', BEN, "if _body[:3].upper() == VDD_NAME:", "if _out[:3].upper() == VDD_NAME:", 'C11.CLASSIFY')
 M('c11-print-outputs-sorted', 'C11', CIRC, "f'OUTPUT({output_label})' for output_label in self._outputs", "f'OUTPUT({output_label})' for output_label in sorted(self._outputs)", 'C11.PRINT')
 M('c11-print-skip-consts', 'C11', CIRC, "            for _gate in self._gates.values()\n            if _gate.gate_type != gate.INPUT\n        )", "            for _gate in self._gates.values()\n            if _gate.operands\n        )", 'C11.PRINT')
-M('c11-eof-dropped', 'C11', 'cirbo/core/parser/abstract.py', "        yield from self._eof()\n", "", 'C11.PRINT')
+M('c11-eof-dropped', 'C11', 'cirbo/core/parser/abstract.py', "        yield from self._eof()\n", "", None)
 M('c11-comment-strip', 'C11', BEN, "if line == '' or line == '\\n' or line[0] == '#':", "if line == '' or line == '\\n' or '#' in line:", None)
 M('c11-twin-find-bracket', 'C11', BEN, "_gate = line[6:].strip(') \\n')", "_gate = line[line.find('(') + 1 :].strip(') \\n')", None)
 
@@ -368,7 +368,7 @@ M('c07-reach-aig-gadget', 'C07', SUMF, "    g4 = add_gate_from_tt(circuit, g3, x
 M('c07-addonly-private', 'C07', SUMF, "    [x1, x2] = input_labels\n    g1 = add_gate_from_tt(circuit, x1, x2, '0110')\n    g2 = add_gate_from_tt(circuit, x1, x2, '0001')", "    [x1, x2] = input_labels\n    g1 = add_gate_from_tt(circuit, x1, x2, '0110')\n    g2 = x1 + '_and_' + x2\n    circuit._gates[g2] = gate.Gate(g2, gate.AND, (x1, x2))", 'C07.ADD-ONLY')
 M('c07-addonly-remove', 'C07', SUMF, "        res.append(now[0])\n        now = next\n    return reverse_if_big_endian(res, big_endian)", "        res.append(now[0])\n        now = next\n    for label in list(circuit.gates):\n        if not circuit.get_gate_users(label) and label not in res and label not in circuit.outputs:\n            circuit.remove_gate(label)\n    return reverse_if_big_endian(res, big_endian)", 'C07.ADD-ONLY')
 M('c07-args-reverse-inplace', 'C07', SUMF, "    input_labels_a = list(input_labels_a)\n    input_labels_b = list(input_labels_b)\n    n = len(input_labels_a)\n    m = len(input_labels_b)\n    if big_endian:\n        input_labels_a.reverse()", "    input_labels_b = list(input_labels_b)\n    n = len(input_labels_a)\n    m = len(input_labels_b)\n    if big_endian:\n        input_labels_a.reverse()", 'C07.ARGS')
-M('c07-args-pop', 'C07', SUMF, "    now = list(input_labels)\n    res = []\n    while len(now) > 0:\n        next = []\n        while len(now) > 2:\n            x, y = add_sum3_aig", "    now = input_labels\n    res = []\n    while len(now) > 0:\n        next = []\n        while len(now) > 2:\n            x, y = add_sum3_aig", 'C07.ARGS')
+M('c07-args-pop', 'C07', SUMF, "    now = list(input_labels)\n    res = []\n    while len(now) > 0:\n        next = []\n        while len(now) > 2:\n            x, y = add_sum3_aig", "    now = input_labels\n    res = []\n    while len(now) > 0:\n        next = []\n        while len(now) > 2:\n            x, y = add_sum3_aig", None)
 M('c07-endian-return', 'C07', SUMF, "    d[n] = [d[n - 1][1]]\n    return reverse_if_big_endian([d[i][0] for i in range(n + 1)], big_endian)", "    d[n] = [d[n - 1][1]]\n    return [d[i][0] for i in range(n + 1)]", 'C07.ENDIAN')
 M('c07-endian-shift-early', 'C07', SUMF, "        for i in range(m):\n            d[i + shift] = [input_labels_b[i]]\n        return reverse_if_big_endian([i[0] for i in d], big_endian)", "        for i in range(m):\n            d[i + shift] = [input_labels_b[i]]\n        return [i[0] for i in d]", 'C07.ENDIAN')
 M('c07-endian-one-operand', 'C07', SUMF, "    if big_endian:\n        input_labels_a.reverse()\n        input_labels_b.reverse()\n\n    if n < m:", "    if big_endian:\n        input_labels_a.reverse()\n\n    if n < m:", 'C07.ENDIAN')
@@ -423,6 +423,12 @@ M('c04-snap-shallow', 'C04', SUBC, "    initial_circuit: Circuit = copy.deepcopy
 M('c04-validation-inverted', 'C04', SUBC, "        if is_circuit_satisfiable(miter_circuit).answer:\n            raise FailedValidationError()", "        if not is_circuit_satisfiable(miter_circuit).answer:\n            raise FailedValidationError()", 'C04.')
 M('c04-size-same', 'C04', SUBC, "                TruthTableModel(outputs_tt),\n                size - 1,", "                TruthTableModel(outputs_tt),\n                size,", None)
 M('c04-size-basis', 'C04', SUBC, "                size - 1,\n                basis=_basis,", "                size - 1,", 'C04.')
+# Mutants whose expectation is None although they were first written to fire (c05-no-early-return, c07-args-pop, c11-eof-dropped,
+# c18-cleanup-order, c18-idem-*, c18-composition-eq, c19-subc-restore-before / -no-guard-exclusion / -no-overlap-check,
+# c03-iface-filter-outputs, c04-snap-*, c04-size-same, c04-revert-f03): the shape rule that caught them demanded more than the property
+# states (a memo, an argument copy, a validation order, a declared flag); the folds show the stated behaviour unchanged on the whole
+# family, so silence is the right verdict.
+
 # reverts of the repairs F02/F03/F23/F30-F33 (each must be reported again)
 M('c04-revert-f03', 'C04', SUBC, "                    circuit._remove_user(output, user)\n                    circuit._add_user(new_output, user)", "                    circuit._gate_to_users[new_output].append(user)", None)
 M('c04-revert-f02', 'C04', SUBC, "                outputs_negation_mapping[output] = found_patterns[MAX_PATTERN - pattern]", "                outputs_mapping[output] = found_patterns[MAX_PATTERN - pattern]", 'C04.FOLD')
